@@ -93,11 +93,13 @@ def coq_make(targets, timeout=1500):
         return rc == 0, out
 
 
-def coq_props(prop):
-    """Build Props/<prop>.vo and everything it depends on (full .vo), then re-check the property file
+def coq_props(prop, file=None):
+    """(file: name of the Props file when it is not <prop>.v, e.g. "C04_links")
+    Build Props/<prop>.vo and everything it depends on (full .vo), then re-check the property file
     itself so that its Print Assumptions output is captured on every run.
     Returns dict(ok, theorems=[{name, assumptions}], log, forbidden=[...])."""
     res = {"ok": False, "theorems": [], "log": "", "forbidden": []}
+    prop = file or prop
     ok, out = coq_make([f"Props/{prop}.vo"])
     res["log"] = out
     if not ok:
@@ -353,14 +355,20 @@ class Check:
                 self.problem("translator", f"translator:{k}", st.get(k, "item missing from status.json"))
         return all(st.get(k) == "ok" for k in items)
 
-    def phase_proofs(self):
-        r = coq_props(self.prop)
+    def phase_proofs(self, file=None):
+        """file: Props file name when it differs from the property id; several calls accumulate"""
+        r = coq_props(self.prop, file)
+        pf = file or self.prop
+        if file and self.cov.get("theorems"):
+            prev_ok = self.cov.get("discharged", 0) == len(self.cov["theorems"])
+            r["theorems"] = self.cov["theorems"] + r["theorems"]
+            r["ok"] = r["ok"] and prev_ok
         self.obligations = r["theorems"]
-        self.cov["checker_cmd"] = f"make -C coq Props/{self.prop}.vo (full .vo) && coqc Props/{self.prop}.v (Print Assumptions); grep for Admitted/Axiom/..."
+        self.cov["checker_cmd"] = (self.cov["checker_cmd"] + "; " if file and self.cov.get("checker_cmd") else "") + f"make -C coq Props/{pf}.vo (full .vo) && coqc Props/{pf}.v (Print Assumptions); grep for Admitted/Axiom/..."
         if not r["ok"]:
             tail = "\n".join(r["log"].strip().split("\n")[-25:])
             where = r.get("failed_file")
-            name = f"proof:{where}:{r.get('failed_line')}" if where else "proof:Props/%s.v" % self.prop
+            name = f"proof:{where}:{r.get('failed_line')}" if where else "proof:Props/%s.v" % pf
             if r["forbidden"]:
                 name = "proof:forbidden-construct"
                 tail = "; ".join(r["forbidden"]) + "\n" + tail
